@@ -23,6 +23,7 @@ import (
 	"fmt"
 	"io"
 	"path"
+	"strings"
 
 	"github.com/google/gce-tcb-verifier/cmd/output"
 	"github.com/google/gce-tcb-verifier/keys"
@@ -132,6 +133,20 @@ func fileExists(ctx context.Context, cops ChangeOps, fullpath string) (bool, err
 	return err == nil, err
 }
 
+// canonicalBasename returns the clean spelling of basename relative to outDir, so that every
+// spelling of one file (rc1, ./rc1, sub/../rc1, ../<out_dir>/rc1) names it the same way.
+func canonicalBasename(outDir, basename string) string {
+	dir := path.Join("/", outDir)
+	full := path.Join(dir, basename)
+	if dir != "/" {
+		dir += "/"
+	}
+	if strings.HasPrefix(full, dir) && full != dir {
+		return strings.TrimPrefix(full, dir)
+	}
+	return path.Clean(basename)
+}
+
 // defaultGenerateBasename returns a certificate file name to use for the endorsement request. If the
 // CandidateName field is present in the request, then the name is customizable. Defaults to
 // 'endorsement.binarypb'.
@@ -144,7 +159,9 @@ func defaultGenerateBasename(ctx context.Context, cops ChangeOps) (string, error
 	if release == "" {
 		release = DefaultEndorsementBasename
 	}
-	basename := fmt.Sprintf("%s.%s", release, endorsementFileExt)
+	// The manifest identifies an endorsement by its path relative to the manifest's directory: the
+	// entry must not depend on how the candidate name was spelled.
+	basename := canonicalBasename(ec.OutDir, fmt.Sprintf("%s.%s", release, endorsementFileExt))
 	path := releasePath(ctx, basename)
 	exists, err := fileExists(ctx, cops, path)
 	if err != nil {
